@@ -1041,26 +1041,57 @@ func C05(c *Ctx) {
 
 // versionFilter: advance skips entries with version > readTs (operator check).
 func versionFilter(c *Ctx, rule string, fn *ssa.Function) {
-	found := 0
-	for _, b := range fn.Blocks {
-		ifi := ifOf(b)
-		if ifi == nil {
-			continue
-		}
-		bo, ok := ifi.Cond.(*ssa.BinOp)
-		if !ok {
-			continue
-		}
-		if o, f, ok := FieldOf(Unwrap(bo.Y)); ok && o == "NoKV.TxnIterator" && f == "readTs" {
-			if call, ok := bo.X.(*ssa.Call); ok && Named("kv.ParseTs")(call.Common()) {
-				found++
-				c.Decide(bo.Op.String() == ">", rule, key(fn, fmt.Sprintf("version-filter[%d]", found)), ifi.Pos(), 1, "entries newer than readTs are skipped (version > readTs)", "snapshot filter uses operator "+bo.Op.String()+" (expected version > readTs skip)")
+	// decided by order-sign evaluation: an entry whose version is above it.readTs never makes
+	// the iterator valid; one at or below it can (however the version is obtained or the test
+	// is spelled)
+	var emits []ssa.Instruction
+	for _, st := range fieldStoresIn(fn, false, "NoKV.TxnIterator", "valid") {
+		if sv, ok := st.(*ssa.Store); ok {
+			if k, isC := sv.Val.(*ssa.Const); isC && k.Value != nil && k.Value.String() == "true" {
+				emits = append(emits, st)
 			}
 		}
 	}
-	if found == 0 {
-		c.Fail(rule, key(fn, "has:version-filter"), fn.Pos(), 1, "no comparison of the entry version with it.readTs found in advance")
+	role := func(v ssa.Value) string {
+		v = Unwrap(v)
+		if isFieldLoad(v, "NoKV.TxnIterator", "readTs") {
+			return "readTs"
+		}
+		if call, ok := v.(*ssa.Call); ok && Named("kv.ParseTs")(call.Common()) {
+			return "ver"
+		}
+		if ex, ok := v.(*ssa.Extract); ok && ex.Index == 2 {
+			if call, ok := ex.Tuple.(*ssa.Call); ok && Named("kv.SplitInternalKey")(call.Common()) {
+				return "ver"
+			}
+		}
+		return ""
 	}
+	reach := func(s int) (bool, int) {
+		signs := map[string]int{}
+		SetSign(signs, "ver", "readTs", s)
+		env := &SignEnv{Role: role, Signs: signs, Depth: 2}
+		hit := false
+		for _, e := range emits {
+			if env.Reaches(fn, e) {
+				hit = true
+			}
+		}
+		return hit, env.Visited
+	}
+	if len(emits) == 0 {
+		c.Fail(rule, key(fn, "has:version-filter"), fn.Pos(), 1, "advance never marks the iterator valid: the snapshot filter cannot be evaluated")
+		return
+	}
+	newer, n1 := reach(1)
+	same, n2 := reach(0)
+	older, n3 := reach(-1)
+	if newer && same && older {
+		c.Fail(rule, key(fn, "has:version-filter"), fn.Pos(), n1+n2+n3, "no comparison of the entry version with it.readTs found in advance")
+		return
+	}
+	c.Decide(!newer && same && older, rule, key(fn, "version-filter[1]"), fn.Pos(), n1+n2+n3, "entries newer than readTs are skipped, entries at or below it are visible",
+		fmt.Sprintf("snapshot filter: version>readTs yielded=%v (want false), version==readTs yielded=%v (want true), version<readTs yielded=%v (want true)", newer, same, older))
 }
 
 func watermarkPublishOrder(c *Ctx, rule string) {
